@@ -691,10 +691,12 @@ class Engine:
             if tier == 'quick' and h.name in self.budget.get('thorough_only', []):
                 return False
             validated = h.name in self.budget.get('thorough_validated', [])
+            # a harness demoted from the quick tier for cost ('thorough_only') is a thorough-only harness
+            is_quick = 'quick' in h.tiers and h.name not in self.budget.get('thorough_only', [])
             if os.environ.get('VERIF_TRY_THOROUGH'):
                 # maintenance mode: run exactly the thorough-only harnesses that are not validated yet
-                return 'quick' not in h.tiers and not validated and (not only or re.search(only, h.name))
-            if tier == 'thorough' and 'quick' not in h.tiers and not os.environ.get('VERIF_NOSKIP') and not validated:
+                return not is_quick and not validated and (not only or re.search(only, h.name))
+            if tier == 'thorough' and not is_quick and not os.environ.get('VERIF_NOSKIP') and not validated:
                 return False      # thorough-only harness not yet seen to conclude on the unchanged tree
             return tier in h.tiers and (not only or re.search(only, h.name))
         self.harnesses = [h for h in harnesses if _ok(h)]
